@@ -127,6 +127,7 @@ type Term struct {
 	Args []*Term
 	S    *Sort
 	size int
+	Pats [][]*Term // quantifier triggers
 }
 
 func (t *Term) Size() int {
@@ -421,6 +422,9 @@ func toLin(t *Term, k *big.Int, l *linForm, depth int) {
 				toLin(a, nk, l, depth+1)
 			}
 		}
+	case "at":
+		toLin(t.Args[0], k, l, depth+1)
+		toLin(t.Args[1], k, l, depth+1)
 	case "*":
 		if len(t.Args) == 2 && t.Args[0].IsIntLit() {
 			toLin(t.Args[1], new(big.Int).Mul(k, t.Args[0].Val), l, depth+1)
@@ -820,6 +824,19 @@ func ShiftByInt(op string, x, c *Term) *Term {
 	return r
 }
 
+// ElemIdx: physical index of logical element k of a slice at offset off.  For byte memories this is
+// plain arithmetic (bit-level proofs fold it); for other element sorts the sum is wrapped in the
+// function "at" (axiom: at(o,k) = o+k) so that quantifier triggers such as s[k] contain no arithmetic.
+func ElemIdx(off, k *Term, es *Sort) *Term {
+	if es.K == KBV && es.W == 8 {
+		return Add(off, k)
+	}
+	if off.IsIntLit() && k.IsIntLit() {
+		return Add(off, k)
+	}
+	return App("at", SInt, off, k)
+}
+
 // ---------- arrays ----------
 
 func idxRel(a, b *Term) int { // 1 equal, -1 distinct, 0 unknown
@@ -981,7 +998,23 @@ func (t *Term) write(sb *strings.Builder, names map[*Term]string) {
 			fmt.Fprintf(sb, "(%s %s)", smtIdent(v.Name), v.S)
 		}
 		sb.WriteString(") ")
+		if len(t.Pats) > 0 {
+			sb.WriteString("(! ")
+		}
 		t.Args[len(t.Args)-1].write(sb, names)
+		for _, grp := range t.Pats {
+			sb.WriteString(" :pattern (")
+			for i, pt := range grp {
+				if i > 0 {
+					sb.WriteString(" ")
+				}
+				pt.write(sb, names)
+			}
+			sb.WriteString(")")
+		}
+		if len(t.Pats) > 0 {
+			sb.WriteString(")")
+		}
 		sb.WriteString(")")
 		return
 	}
@@ -1159,7 +1192,11 @@ func Rebuild(t *Term, args []*Term) *Term {
 			}
 		}
 	}
-	return &Term{Op: t.Op, Name: t.Name, Val: t.Val, Args: args, S: t.S}
+	r := &Term{Op: t.Op, Name: t.Name, Val: t.Val, Args: args, S: t.S}
+	if len(t.Pats) > 0 {
+		r.Pats = t.Pats // note: patterns are not rewritten by substitution
+	}
+	return r
 }
 
 // FreeVars collects variable names (with sorts) appearing in t.
